@@ -61,19 +61,16 @@ class Ctx:
             f = f.t if isinstance(f, SymBool) else f
             self.pc.append(f)
 
-    def _sync(self):
-        while self._pushed < len(self.pc):
-            self.solver.add(self.pc[self._pushed])
-            self._pushed += 1
-
     def feasible(self, t):
-        """'sat' / 'unsat' / 'unknown' for pc ∧ t  (definitions excluded)."""
-        self._sync()
+        """'sat' / 'unsat' / 'unknown' for pc ∧ t  (definitions excluded).
+        A fresh, non-incremental solver is used on purpose: z3's incremental core is far
+        weaker on non-linear real arithmetic than its one-shot nlsat strategy."""
         t0 = time.time()
-        self.solver.push()
-        self.solver.add(t)
-        r = str(self.solver.check())
-        self.solver.pop()
+        s = z3.Solver()
+        s.set('timeout', self.feas_timeout_ms)
+        s.add(*self.pc)
+        s.add(t)
+        r = str(s.check())
         self.nfeas += 1
         self.tfeas += time.time() - t0
         return r
@@ -322,6 +319,9 @@ def _is_sum_of_squares(t):
 
 class SymReal:
     dtype = np.dtype('O')
+    ndim = 0
+    shape = ()
+    size = 1
 
     def __init__(self, t, integral=False):
         self.t = t
@@ -510,6 +510,11 @@ class SymReal:
     def real(s): return s
     @property
     def imag(s): return 0
+
+    def __getitem__(s, idx):
+        if idx == () or idx is Ellipsis:
+            return s
+        raise IndexError('symbolic scalar')
 
     def copy(s): return s
     def __copy__(s): return s
@@ -765,23 +770,54 @@ def linform(t):
     return terms, const[0]
 
 
+SQ2 = z3.Real('SQRT2')
+SQ3 = z3.Real('SQRT3')
+ALG_DEFS = z3.And(SQ2 > 0, SQ2 * SQ2 == 2, SQ3 > 0, SQ3 * SQ3 == 3)
+
+
+def _alg12(k):
+    """exact (cos, sin) of k*pi/12 as z3 terms over SQRT2, SQRT3"""
+    k %= 24
+    one, zero = z3.RealVal(1), z3.RealVal(0)
+    base = {0: (one, zero),
+            1: (SQ2 * (SQ3 + 1) / 4, SQ2 * (SQ3 - 1) / 4),
+            2: (SQ3 / 2, one / 2),
+            3: (SQ2 / 2, SQ2 / 2),
+            4: (one / 2, SQ3 / 2),
+            5: (SQ2 * (SQ3 - 1) / 4, SQ2 * (SQ3 + 1) / 4),
+            6: (zero, one)}
+    q, r = divmod(k, 6)
+    c, s = base[r]
+    for _ in range(q):          # rotate by pi/2
+        c, s = -s, c
+    return c, s
+
+
 def _const_cs(theta):
-    """exact (cos, sin) for multiples of pi/2, pi/6 and pi/4 style constants; else boxed reals"""
-    q = theta / (math.pi / 2)
+    """(cos, sin) of a constant angle: exact for multiples of pi/12 (algebraic numbers over
+    sqrt2, sqrt3); otherwise a pair boxed to one ulp around the float values (sound
+    over-approximation)"""
+    c = ctx()
+    q = theta / (math.pi / 12)
     qr = round(q)
     if abs(q - qr) < 1e-9:
-        return [(1, 0), (0, 1), (-1, 0), (0, -1)][qr % 4]
-    c = ctx()
+        if qr % 6 == 0:
+            return [(1, 0), (0, 1), (-1, 0), (0, -1)][(qr // 6) % 4]
+        if not c.__dict__.get('alg_defs'):
+            c.alg_defs = True
+            c.defs.append(ALG_DEFS)
+        return _alg12(qr)
     memo = c.__dict__.setdefault('const_angles', {})
     key = round(theta % (2 * math.pi), 12)
     if key not in memo:
         n = c.name('kang')
         cc, ss = z3.Real('c_' + n), z3.Real('s_' + n)
-        eps = Fraction(1, 10**12)
+        eps = Fraction(1, 2**51)
         fc, fs = Fraction(math.cos(theta)), Fraction(math.sin(theta))
         c.pc.append(z3.And(cc * cc + ss * ss == 1,
                            cc >= lift(fc - eps), cc <= lift(fc + eps),
                            ss >= lift(fs - eps), ss <= lift(fs + eps)))
+        c.notes.append(f'constant angle {theta!r} rad boxed to 2^-51 around its float cos/sin')
         memo[key] = (cc, ss)
     return memo[key]
 
